@@ -969,7 +969,13 @@ impl ErasedNode for Node {
         } else if !self.is_necessary() {
             NodeUpdateDelayed::Unnecessary
         } else {
-            match self.value_as_any().is_some() {
+            // Only report a change if the value changed in the stabilisation that is just
+            // finishing (stabilisation_num has already been bumped when this is called).
+            // A node handled for another reason (new observer, new subscription) is merely
+            // Necessary, which handlers that have already seen a value ignore.
+            let now = self.state().stabilisation_num.get();
+            let changed_now = self.changed_at.get().add1() == now;
+            match self.value_as_any().is_some() && changed_now {
                 true => NodeUpdateDelayed::Changed,
                 false => NodeUpdateDelayed::Necessary,
             }
